@@ -277,12 +277,13 @@ def decodeDatetimeBase (g : Grammar) (s : Str) : Option Val :=
       | some dt => some (.datetime dt.year dt.month dt.day dt.hour dt.minute dt.second dt.micro tz)
       | Option.none => if isLeapSeconds g s then some (.str s) else Option.none
 
-/-- the tail `(?P<hour>0?[0-9]|1[0-2])(?:(?P<minute>[0-5]\d))?` to the end of the string,
+/-- the tail `(?P<hour>0?[0-9]|1[0-2])(?::?(?P<minute>[0-5]\d))?` to the end of the string,
     alternatives in regex priority order; returns (hour, minute). -/
 def zoneTail (s : Str) : Option (Nat × Nat) :=
   let minuteEnd (r : Str) : Option Nat :=
     match r with
     | [m1, m2] => if dd 0 5 m1 && isDecimal m2 then natOf [m1, m2] else Option.none
+    | [58, m1, m2] => if dd 0 5 m1 && isDecimal m2 then natOf [m1, m2] else Option.none
     | _ => Option.none
   let fin (h : Nat) (r : Str) : Option (Nat × Nat) :=
     match minuteEnd r with
